@@ -157,7 +157,7 @@ pub fn run(cfg: &Cfg, rep: &mut Report) {
     rep.max("nesting_depth", depth as u64);
     let mut fixed: Vec<(String, Flags)> = scope.into_iter().map(|p| (p, fl(""))).collect();
     fixed.extend(super::diff::fixed_corpus());
-    let spec = StreamSpec { n_struct: cfg.scaled(if cfg.quick() { 6_000 } else { 200_000 }), enum_nodes: if cfg.quick() { 0 } else { 3 }, enum_flags: vec![fl(""), fl("u")], tweak, fixed };
+    let spec = StreamSpec { n_struct: cfg.scaled(if cfg.quick() { 6_000 } else { 200_000 }), enum_nodes: if cfg.quick() { 0 } else { 3 }, enum_flags: vec![fl(""), fl("u")], tweak, fixed, templates: true };
     struct H;
     let _ = H;
     let opts = DriveOpts { budget: 31, n_long: 1, n_plant: 0, ascii_only: false, sample_every: 499 };
